@@ -785,9 +785,24 @@ def run_command_scenario(seed, n_events=12):
         i0 = cl.append("c.call", ctx=r.choice(ctxs))
         evs.append((i0, "call", "c", 0, None))
         for _ in range(n_events):
-            k = r.choices(["define", "baddefine", "call", "burstcalls", "other"], [3, 1, 6, 1, 1])[0]
+            k = r.choices(["define", "baddefine", "call", "burstcalls", "other", "samedefine"], [3, 1, 6, 1, 1, 1.5])[0]
             c = r.choice(ctxs)
             n = r.choice(names)
+            if k == "samedefine":
+                # the same script again, byte for byte (a bootstrap script re-appending its definitions): it is a NEW
+                # definition - later calls are stamped with ITS id
+                prev = [(i, kind, n2, c2, valid) for (i, kind, n2, c2, valid) in evs if kind == "define" and valid and i in defs]
+                if prev:
+                    (pi, _, n, c, _) = r.choice(prev)
+                    i = cl.append(n + ".define", ctx=c, body=render_command(defs[pi]).encode())
+                    defs[i] = defs[pi]
+                    evs.append((i, "define", n, c, True))
+                    cl.settle(0.15, 3)
+                    i2 = cl.append(n + ".call", ctx=c)
+                    evs.append((i2, "call", n, c, None)); rep["calls"] += 1
+                    cl.settle(0.2, 5)
+                    rep["events"].append(k)
+                continue
             if k == "define":
                 p = dict(values=[r.choice(["a", "b", "héllo", "x" * 200]) for _ in range(r.choice([0, 1, 2, 3]))],
                          appends=[dict(topic=r.choice(["side", n + ".note"]), meta=r.choice([None, {"k": 1}]), content="c1")
@@ -820,6 +835,17 @@ def run_command_scenario(seed, n_events=12):
             else:
                 cl.append("other", ctx=c)
             rep["events"].append(k)
+        if r.random() < 0.5:
+            # a definition that answers, then a broken redefinition of the same name: the old one stays in force - also
+            # across the restart below
+            n, c = r.choice(["c", "d"]), r.choice(ctxs)
+            p = dict(values=["keep"], appends=[], fail=False, suffix=None, ttl=None, slow_ms=0, count=False, single=False)
+            i = cl.append(n + ".define", ctx=c, body=render_command(p).encode())
+            defs[i] = p
+            evs.append((i, "define", n, c, True)); cl.settle(0.15, 3)
+            i = cl.append(n + ".define", ctx=c, body=b"{ run: {|frame| ")
+            evs.append((i, "define", n, c, False)); cl.settle(0.15, 3)
+            rep["events"] += ["define", "baddefine"]
         cl.settle(0.6, 30)
         fr = cl.frames()
         # which definition runs which call: the model's serve loop over the events in id order
